@@ -764,8 +764,15 @@ template<RuleLocal::erule effrule>
 std::vector<int> GridLocalPolynomial::getSubGraph(std::vector<int> const &point) const{
     std::vector<int> graph, p = point;
     std::vector<bool> used(points.getNumIndexes(), false);
-    int max_1d_kids = RuleLocal::getMaxNumKids<effrule>();
+    // the semi-local functions at -1 and 1 span the whole domain, each is also a (step) parent of the kid of the other
+    constexpr bool has_step_kid = (effrule == RuleLocal::erule::semilocalp);
+    int max_1d_kids = RuleLocal::getMaxNumKids<effrule>() + ((has_step_kid) ? 1 : 0);
     int max_kids = max_1d_kids * num_dimensions;
+    auto get_kid = [&](int point1d, int kid_number)->int{
+        if (has_step_kid and kid_number == max_1d_kids - 1)
+            return (point1d == 1) ? 4 : ((point1d == 2) ? 3 : -1); // inverse of getStepParent()
+        return RuleLocal::getKid<effrule>(point1d, kid_number);
+    };
 
     std::vector<int> monkey_count(1, 0), monkey_tail;
 
@@ -773,8 +780,8 @@ std::vector<int> GridLocalPolynomial::getSubGraph(std::vector<int> const &point)
         if (monkey_count.back() < max_kids){
             int dim = monkey_count.back() / max_1d_kids;
             monkey_tail.push_back(p[dim]);
-            p[dim] = RuleLocal::getKid<effrule>(monkey_tail.back(), monkey_count.back() % max_1d_kids);
-            int slot = points.getSlot(p);
+            p[dim] = get_kid(monkey_tail.back(), monkey_count.back() % max_1d_kids);
+            int slot = (p[dim] == -1) ? -1 : points.getSlot(p);
             if ((slot == -1) || used[slot]){ // this kid is missing
                 p[dim] = monkey_tail.back();
                 monkey_tail.pop_back();
